@@ -304,16 +304,16 @@ def WLbArgs (L : Nat) : List Py → Bool
   | e :: es => WLbArg L e && WLbArgs L es
 def WLbArg (L : Nat) : Py → Bool
   | .kw _ e => WLb L e
-  | .num _ => true | .name _ => true | .str _ => true | .hole _ => true
-  | .paren e => WLb L (.paren e)
-  | .neg e => WLb L (.neg e)
-  | .not e => WLb L (.not e)
-  | .bin k l r => WLb L (.bin k l r)
-  | .ite x c y => WLb L (.ite x c y)
-  | .attr e a => WLb L (.attr e a)
-  | .call f args => WLb L (.call f args)
-  | .index e i => WLb L (.index e i)
-  | .list es => WLb L (.list es)
+  | .paren e => WLb L e
+  | .neg e => WLb L e && decide (lvlH L e ≥ 7)
+  | .not e => WLb L e && decide (lvlH L e ≥ 3)
+  | .bin k l r => WLb L l && WLb L r && decide (lvlH L l ≥ ldem k) && decide (lvlH L r ≥ rbp k)
+  | .ite x c y => WLb L x && WLb L c && WLb L y && decide (lvlH L x ≥ 1) && decide (lvlH L c ≥ 1)
+  | .attr e _ => WLb L e && decide (lvlH L e ≥ 100)
+  | .call f args => WLb L f && decide (lvlH L f ≥ 100) && WLbArgs L args
+  | .index e i => WLb L e && decide (lvlH L e ≥ 100) && WLb L i
+  | .list es => WLbL L es
+  | _ => true
 end
 
 /-! ### Operator tables and expression trees over them -/
